@@ -33,6 +33,7 @@ func (c cred) String() string  { return fmt.Sprintf("%q:%q", c.User, c.Pass) }
 var (
 	alice   = cred{"alice", "Pw-Alice1"}
 	bob     = cred{"bob", "Pw-Bob22"}
+	alice2  = cred{"alice", "Pw-Other6"}   // same user, another password (group member)
 	mallory = cred{"mallory", "Pw-Mal333"} // configured nowhere
 	pwOnly  = cred{"", "Only-Pw4"}
 	usrOnly = cred{"carol", ""}
@@ -226,6 +227,8 @@ func httpRoutes() []*route {
 		{Name: "t8.p", Type: "http", Domain: "t8.test", Group: "g8", Cred: alice, Late: true, MayBeRefused: true},
 		{Name: "t8b.pa", Type: "http", Domain: "t8b.test", Group: "g8b", Cred: alice},
 		{Name: "t8b.pb", Type: "http", Domain: "t8b.test", Group: "g8b", Cred: bob, Late: true, MayBeRefused: true},
+		{Name: "t8c.p1", Type: "http", Domain: "t8c.test", Group: "g8c", Cred: alice},
+		{Name: "t8c.p2", Type: "http", Domain: "t8c.test", Group: "g8c", Cred: alice2, Late: true, MayBeRefused: true},
 		{Name: "t9.p", Type: "http", Sub: "s9", Cred: alice},
 		{Name: "t10.p", Type: "http", Domain: "t10.test", RouteBy: "bob", Cred: alice},
 		{Name: "t11.pa", Type: "http", Domain: "t11.test", Cred: alice},
@@ -255,6 +258,8 @@ func buildHTTPTargets() []target {
 		{Table: "t8", Server: "A", Host: "t8.test", Path: "/", Focus: alice, Other: mallory},
 		{Table: "t8b", Server: "A", Host: "t8b.test", Path: "/", Focus: alice, Other: bob},
 		{Table: "t8bb", Server: "A", Host: "t8b.test", Path: "/", Focus: bob, Other: alice},
+		{Table: "t8c", Server: "A", Host: "t8c.test", Path: "/", Focus: alice, Other: alice2},
+		{Table: "t8cc", Server: "A", Host: "t8c.test", Path: "/", Focus: alice2, Other: alice},
 		{Table: "t9", Server: "A", Host: "s9.sub.test", Path: "/", Focus: alice, Other: mallory, Simple: true, Control: "t9.p"},
 		{Table: "t10", Server: "A", Host: "t10.test", Path: "/", Focus: alice, Other: bob},
 		{Table: "t11a", Server: "A", Host: "t11.test", Path: "/", Focus: alice, Other: bob, Control: "t11.pa"},
@@ -382,7 +387,12 @@ func startClient(text string, names []string) *h.Client {
 }
 
 func setupEnv() {
-	pa := h.Ports(prop)
+	// the property's port range, split in two so that a mutation-mode run (VERIF_REPO) can run next to a normal one
+	sub := 0
+	if os.Getenv("VERIF_EVIDENCE_DIR") != "" {
+		sub = 1
+	}
+	pa := h.PortsSub(prop, sub, 2)
 	rd := h.RunDir(prop)
 	assetsDir = filepath.Join(rd, "assets")
 	staticDir = filepath.Join(rd, "static")
@@ -488,10 +498,10 @@ webServer.assetsDir = %s
 		early += pluginTOML(p)
 		earlyNames = append(earlyNames, "plug."+p.ID)
 	}
-	// frpc admin API of the early client on A
+	// frpc admin API: a dedicated client (a served /api/stop must not take the proxies of the other monitors down)
 	adminPort := pa.Get()
-	early = strings.Replace(early, "loginFailExit = false\n", fmt.Sprintf("loginFailExit = false\nwebServer.addr = \"127.0.0.1\"\nwebServer.port = %d\nwebServer.user = %s\nwebServer.password = %s\nwebServer.assetsDir = %s\n",
-		adminPort, tomlStr(admin.User), tomlStr(admin.Pass), tomlStr(assetsDir)), 1)
+	startClient(clientHead(envA.BindPort)+fmt.Sprintf("webServer.addr = \"127.0.0.1\"\nwebServer.port = %d\nwebServer.user = %s\nwebServer.password = %s\nwebServer.assetsDir = %s\n\n[[proxies]]\nname = \"adm.a\"\ntype = \"stcp\"\nsecretKey = \"k\"\nlocalIP = \"127.0.0.1\"\nlocalPort = 9\n",
+		adminPort, tomlStr(admin.User), tomlStr(admin.Pass), tomlStr(assetsDir)), []string{"adm.a"})
 	startClient(early, earlyNames)
 	lateCli := startClient(late, lateNames)
 	for _, n := range optional {
@@ -522,8 +532,8 @@ webServer.assetsDir = %s
 		}
 	}
 	adminPortB := pa.Get()
-	earlyB = strings.Replace(earlyB, "loginFailExit = false\n", fmt.Sprintf("loginFailExit = false\nwebServer.addr = \"127.0.0.1\"\nwebServer.port = %d\nwebServer.user = %s\nwebServer.assetsDir = %s\n",
-		adminPortB, tomlStr(usrOnly.User), tomlStr(assetsDir)), 1)
+	startClient(clientHead(envB.BindPort)+fmt.Sprintf("webServer.addr = \"127.0.0.1\"\nwebServer.port = %d\nwebServer.user = %s\nwebServer.assetsDir = %s\n\n[[proxies]]\nname = \"adm.b\"\ntype = \"stcp\"\nsecretKey = \"k\"\nlocalIP = \"127.0.0.1\"\nlocalPort = 9\n",
+		adminPortB, tomlStr(usrOnly.User), tomlStr(assetsDir)), []string{"adm.b"})
 	startClient(earlyB, earlyBN)
 	startClient(lateB, lateBN)
 
